@@ -233,6 +233,11 @@ class FGen:
             return self.leaf()
         if r < 0.84 and self.cfg.get("comprehensions", True):
             var = "t"
+            if self.cfg.get("p_comp_shadow") and self.rng.random() < self.cfg["p_comp_shadow"]:
+                # the comprehension's target has the name of a reference the formula can also read
+                rd = [x for x in self.readables() if x[0] in ("name", "model_name")]
+                if rd:
+                    var = rd[self.rng.randrange(len(rd))][1][1]
             self.locals.append(var)
             body = self.expr(depth - 1)
             self.locals.remove(var)
